@@ -295,10 +295,9 @@ def paths(sources, sinks, net_flux, remove_path='subtract',
     total_flux = net_flux[sources, :].sum()
     # total flux is the total flux coming from the sources (or going into the sinks)
 
-    not_done = True
     counter = 0
     expl_flux = 0.0
-    while not_done:
+    while counter < num_paths:
         path, flux = top_path(sources, sinks, net_flux)
         if np.isinf(flux):
             break
